@@ -3,7 +3,8 @@
 BFS over event sequences on a real Model + SimultaneousScheduler with instrumented agents
 (every handler invocation is logged with step, agent id and the event's sequence number).
 Menu: create(type), delete(id) over live *and* dead ids, reconfigure, send(receiver, delay),
-send twice in one step to one receiver, run one step.  Every history is finally *flushed*: steps
+send twice in one step to one receiver, run one step, a step during which an agent sends an
+event from inside act(), a step during which an agent deletes itself or an earlier agent.  Every history is finally *flushed*: steps
 are run until every pending event is past due, the oracle being applied at every step.
 
 Reference: each send at tick T gets due = T + ceil(delay/dt) (exact rationals; tick = index of the
@@ -43,6 +44,11 @@ def _mk_model(dt):
                 kp = getattr(self.model, "kill_plan", None)
                 if kp and kp[0] == self.id:
                     self.model.delete_agent(kp[1])
+                sp = getattr(self.model, "send_plan", None)
+                if sp and sp[0] == self.id:
+                    from BPTK_Py import Event, DelayedEvent
+                    ev = Event("ping", self.id, sp[1], data=sp[3]) if sp[2] is None else DelayedEvent("ping", self.id, sp[1], sp[2], data=sp[3])
+                    self.model.enqueue_event(ev)
         return A
 
     m = LogModel(starttime=0, stoptime=50, dt=dt, name="c11", scheduler=SimultaneousScheduler(), data_collector=DataCollector())
@@ -95,6 +101,10 @@ class System:
             for d in self.delays:
                 ops.append(["send", i, d])
         live = list(ref.live)
+        if live:
+            for rcv in sorted(set([live[0], live[-1]] + [i for i in range(ref.issued) if i not in ref.live][:1])):
+                for d in (None, self.delays[1]):
+                    ops.append(["sstep", live[-1], rcv, d])
         if ref.pending:
             for pos, actor in enumerate(live[:3]):
                 ops.append(["kstep", actor, actor])
@@ -150,6 +160,16 @@ class System:
                 self._send(m, ref, op[1], op[2])
             elif k == "step":
                 viol += self._step(m, ref)
+            elif k == "sstep":
+                # during this step agent op[1] sends an event to op[2] from inside its act(): handled in the step after
+                sender_live = op[1] in ref.live
+                ref.seq += 1
+                m.send_plan = (op[1], op[2], op[3], ref.seq)
+                viol += self._step(m, ref)
+                m.send_plan = None
+                if sender_live and not ref.crashed:
+                    # (its own "send moment": events enqueued between two steps and events sent from inside a step are not "the same step")
+                    ref.pending.append([self._due(ref, op[3]), op[2], ref.seq, ref.tick - 0.5, ref.inc.get(op[2], 0) if op[2] in ref.live else -1])
             elif k == "kstep":
                 # during this step agent op[1] deletes agent op[2] (itself or an agent created before it) in its act()
                 m.kill_plan = (op[1], op[2])
